@@ -19,7 +19,7 @@ func init() {
 		Explanation: "(R1) host names are lower-cased on both sides: every domain that feeds the host tables in NewRouters and the request host in findVirtualHost flow through strings.ToLower; " +
 			"(R2) precedence: in findHighestPriorityIndex the decision points, tagged by the data they consult — (exact map, port), (exact map, \"*\"), (wildcard list of port), (wildcard list of \"*\"), default — are reachable only through the miss edges of the earlier ones, and each wildcard scan is a forward range loop that returns at the first suffix match under the guard hostLen < len(host); " +
 			"(R3) longest suffix first: every wildcard list is sorted after the last insertion and the comparator orders by decreasing hostLen; (R4) first match in configuration order: GetRouteFromEntries is a forward range over routes returning at the first non-nil Match, routes are only appended or truncated, never reordered; " +
-			"(R5) routes and fastIndex are touched only under the virtual host's mutex; (R6) purity: nothing reachable from MatchRoute/MatchAllRoutes/MatchRouteFromHeaderKV stores into a field of routersImpl, VirtualHostImpl or a route rule. (R5, view) a route list read under vh.mutex is not returned, stored or indexed after the lock is released while writers update the backing array in place. (R7) Path/Prefix/Regex rules return themselves only behind the true edges of matchRoute and of their own predicate applied as (request path variable, configured pattern); header/method/variable matchers and matchRoute have the all-of shape. (R7, helpers) the path predicate may live in a helper of the package receiving the request path; any further strings/regexp call on the request path besides the rule's own predicate is reported. (R1, round 5) every findVirtualHostIndex/findHighestPriorityIndex call made for a request takes the result of strings.ToLower - universally, not just the last one. (R1 every-domain-indexed) every edge leaving the loop over a virtual host's domains (in NewRouters or a helper it calls) from a block other than the loop header leads only to error returns.",
+			"(R5) routes and fastIndex are touched only under the virtual host's mutex; (R6) purity: nothing reachable from MatchRoute/MatchAllRoutes/MatchRouteFromHeaderKV stores into a field of routersImpl, VirtualHostImpl or a route rule. (R5, view) a route list read under vh.mutex is not returned, stored or indexed after the lock is released while writers update the backing array in place. (R7) Path/Prefix/Regex rules return themselves only behind the true edges of matchRoute and of their own predicate applied as (request path variable, configured pattern); header/method/variable matchers and matchRoute have the all-of shape. (R7, helpers) the path predicate may live in a helper of the package receiving the request path; any further strings/regexp call on the request path besides the rule's own predicate is reported. (R1, round 5) every findVirtualHostIndex/findHighestPriorityIndex call made for a request takes the result of strings.ToLower - universally, not just the last one. (R1 every-domain-indexed) every edge leaving the loop over a virtual host's domains (in NewRouters or a helper it calls) from a block other than the loop header leads only to error returns. (R9) the constructor whose result CreateRPCRule stores into RPCRouteRuleImpl.configHeaders returns a type whose Matches calls no mosn.io/pkg/variable.Get*.",
 		Run: runC04,
 	})
 }
